@@ -2,6 +2,7 @@
 C13 — Virtual sign implements the sign-side protocol state machine.
 -/
 import Flipdot.Lemmas.VSign
+import Flipdot.Props.C12
 namespace Flipdot.C13
 open Flipdot
 
@@ -234,6 +235,113 @@ theorem reachable_inv (s : VSign) (h : s.Reachable) :
   refine ⟨pw, ph, ?_⟩
   unfold Page.WF at pwf
   rw [pwf, pw, ph]
+
+/-! ### One statement: replies and reported state are those of the documented machine -/
+
+/-- Reply and next state prescribed by the documented sign-side machine (legality table `legal`,
+    targets `target`, report-once completion `afterReport`, count comparison, style-dependent
+    completion, reset / goodbye). -/
+def specStep (s : VSign) (m : Msg) : Option Msg × State :=
+  match m with
+  | .hello a | .queryState a =>
+    if a = s.addr then (some (.reportState s.addr s.state), afterReport s.state) else (none, s.state)
+  | .requestOp a op =>
+    if a = s.addr ∧ legal op s.state = true then (some (.ackOp s.addr op), target op) else (none, s.state)
+  | .chunksSent n =>
+    (none, match s.state with
+      | .pixelsInProgress => if s.chunks = n.toNat then .pixelsReceived else .pixelsFailed
+      | .configInProgress => if s.chunks = n.toNat then .configReceived else .configFailed
+      | st => st)
+  | .pixelsComplete a =>
+    (none, if a = s.addr ∧ s.state = .pixelsReceived then
+        (match s.style with | .automatic => .showingPages | .manual => .pageLoaded)
+      else s.state)
+  | .goodbye a => (none, if a = s.addr then .unconfigured else s.state)
+  | _ => (none, s.state)
+
+theorem sendData_state (s s' : VSign) (off : UInt16) (d : List UInt8) (h : s.sendData off d = .ok s') :
+    s'.state = s.state := by
+  unfold VSign.sendData at h
+  split at h
+  · split at h
+    · cases h
+    · cases h; rfl
+    · split at h
+      · cases h
+      · cases h; rfl
+  · split at h
+    · cases h
+      obtain ⟨_, fst, _⟩ := s.flush_fields
+      split <;> simp [VSign.appendChunk, fst]
+    · cases h; rfl
+
+theorem specStep_hello (s : VSign) (a : UInt16) : specStep s (.hello a) =
+    if a = s.addr then (some (.reportState s.addr s.state), afterReport s.state) else (none, s.state) := rfl
+theorem specStep_query (s : VSign) (a : UInt16) : specStep s (.queryState a) =
+    if a = s.addr then (some (.reportState s.addr s.state), afterReport s.state) else (none, s.state) := rfl
+theorem specStep_request (s : VSign) (a : UInt16) (op : Op) : specStep s (.requestOp a op) =
+    if a = s.addr ∧ legal op s.state = true then (some (.ackOp s.addr op), target op) else (none, s.state) := rfl
+
+/-- For every sign state and every message, the virtual sign's reply and reported state are those
+    of the documented machine; by induction the same holds along every message history. -/
+theorem step_refines (s : VSign) (m : Msg) :
+    ∃ s', vstep s m = .ok (s', (specStep s m).1) ∧ s'.state = (specStep s m).2 := by
+  cases m with
+  | hello a =>
+    rw [specStep_hello]
+    by_cases ha : a = s.addr
+    · subst ha
+      rw [query_spec s _ (.inl rfl)]
+      simp only [↓reduceIte]
+      exact ⟨_, rfl, rfl⟩
+    · simp only [ha, ↓reduceIte]
+      exact ⟨s, by simp [vstep, ha], rfl⟩
+  | queryState a =>
+    rw [specStep_query]
+    by_cases ha : a = s.addr
+    · subst ha
+      rw [query_spec s _ (.inr rfl)]
+      simp only [↓reduceIte]
+      exact ⟨_, rfl, rfl⟩
+    · simp only [ha, ↓reduceIte]
+      exact ⟨s, by simp [vstep, ha], rfl⟩
+  | requestOp a op =>
+    rw [specStep_request]
+    by_cases ha : a = s.addr
+    · subst ha
+      by_cases hl : legal op s.state = true
+      · obtain ⟨s', h1, h2, _⟩ := request_legal s op hl
+        simp only [hl, and_self, ↓reduceIte]
+        exact ⟨s', h1, h2⟩
+      · have hl' : legal op s.state = false := by simpa using hl
+        simp only [hl', Bool.false_eq_true, and_false, ↓reduceIte]
+        exact ⟨s, request_illegal s op hl', rfl⟩
+    · simp only [ha, false_and, ↓reduceIte]
+      exact ⟨s, foreign_silent s (.requestOp a op) a rfl ha, rfl⟩
+  | chunksSent n =>
+    refine ⟨s.chunksSent n, by simp [vstep, specStep], ?_⟩
+    obtain ⟨h1, h2, h3⟩ := count_spec s n
+    simp only [specStep]
+    cases hs : s.state <;> first
+      | exact (h1 hs)
+      | exact (h2 hs)
+      | (rw [h3 (by rw [hs]; simp) (by rw [hs]; simp), hs])
+  | pixelsComplete a =>
+    simp only [vstep, specStep]
+    split
+    · exact ⟨_, rfl, rfl⟩
+    · exact ⟨s, rfl, rfl⟩
+  | goodbye a =>
+    by_cases ha : a = s.addr
+    · subst ha
+      exact ⟨s.reset, by simp [vstep, specStep], by simp [specStep, VSign.reset]⟩
+    · exact ⟨s, by simp [vstep, ha, specStep], by simp [specStep, ha]⟩
+  | sendData off d =>
+    obtain ⟨s', hs'⟩ := C12.sendData_no_panic s off d
+    exact ⟨s', by simp [vstep, hs', specStep], by simp [specStep, sendData_state s s' off d hs']⟩
+  | reportState a st => exact ⟨s, rfl, rfl⟩
+  | ackOp a op => exact ⟨s, rfl, rfl⟩
+  | unknown f => exact ⟨s, rfl, rfl⟩
 
 -- Non-vacuity.
 example : (VSign.new 3 .manual).Reachable := .init 3 .manual
